@@ -1488,17 +1488,18 @@ theorem metaTypeOf_flat (name : String) (hasTy : Bool) (typ0 : String) (line : N
     (h : hasTy = true ∨ (findMeta s name).isSome = true) :
     wlp (metaTypeOf name hasTy typ0 line site) (fun _ s' => s' = s) s := by
   unfold metaTypeOf
-  wls
   split
-  · split
-    · wls
-    · wls
-  · next hnone =>
-    rcases h with h | h
-    · subst h
-      simp only [Bool.not_true, Bool.false_eq_true, if_false]
-      wls
-    · rw [hnone] at h; cases h
+  · wls
+  · next hty =>
+    wls
+    split
+    · split
+      · wls
+      · wls
+    · next hnone =>
+      rcases h with h | h
+      · exact absurd h hty
+      · rw [hnone] at h; cases h
 
 /-- what `quiet` field of the flat fragment looks like in the store: quiet, and `char[n]` stays `char[n]` -/
 def QF (F : Prop) (k : AttrK) : Prop := quiet k ∧ (F → isFixedK k)
